@@ -61,7 +61,7 @@ Qed.
 
 Lemma wmw_ts_close_step : forall id ty x, wmw_txstep id ty x (wm_ts_close id x).
 Proof.
-  intros id ty x. unfold wm_ts_close. generalize wm_close_levels. intro l. revert x.
+  intros id ty x. unfold wm_ts_close. generalize wm_level_count. intro fuel. generalize wm_close_levels. intro l. revert x.
   induction l as [|lv l IH]; intro x; cbn [fold_left]; [apply wmw_txstep_refl|].
   eapply wmw_txstep_trans; [apply wmw_ts_commit_step|apply IH].
 Qed.
